@@ -213,4 +213,118 @@ theorem stale_count_reported (w : World) (fn : Nat) (hr : w.clkRunning = true) (
   rw [h4, hjs]
   rfl
 
+/-- `poweroff_clears`: a POWEROFF command (any datagram that carries the request `POWEROFF`) to
+transceiver `i` empties the queue of every transceiver `j` it acts on — `i` itself, and the children
+of a managing parent (`powerList`) — and stops it; every id that was queued there gets `cleared`,
+the bookkeeping is empty afterwards. -/
+theorem poweroff_clears (w0 : World) (ops : List Op) (j : Nat) (h0 : queueOf w0 j = [])
+    (i sp : Nat) (d : List Nat) (trx : Trx) (ht : (run w0 ops).1.trxs[i]? = some trx)
+    (hreq : CtrlReq d [lit "POWEROFF"]) (hj : j ∈ powerList trx i) :
+    queueOf (run w0 (ops ++ [Op.ctrl i sp d])).1 j = [] ∧
+    runningOf (run w0 (ops ++ [Op.ctrl i sp d])).1 j = false ∧
+    (ghost w0 (ops ++ [Op.ctrl i sp d]) j).ids = [] ∧
+    (∀ id ∈ (ghost w0 ops j).ids, Event.cleared id ∈ (ghost w0 (ops ++ [Op.ctrl i sp d]) j).log) := by
+  obtain ⟨hq, hr⟩ := (poweroff_effect (sp := sp) ht hreq j).1 hj
+  have hl := (ghost_inv w0 ops j h0).lock
+  rw [run_snoc, ghost_snoc]
+  refine ⟨hq, hr, ?_, ?_⟩
+  · simp only [ghostStep, hq]
+    split
+    · rfl
+    · next hn =>
+      have : queueOf (run w0 ops).1 j = [] := Decidable.of_not_not (fun h => hn ⟨trivial, h⟩)
+      rw [this] at hl
+      exact List.eq_nil_of_length_eq_zero hl
+  · intro id hid
+    simp only [ghostStep, hq]
+    split
+    · exact List.mem_append_right _ (List.mem_map.mpr ⟨id, hid, rfl⟩)
+    · next hn =>
+      have : queueOf (run w0 ops).1 j = [] := Decidable.of_not_not (fun h => hn ⟨trivial, h⟩)
+      rw [this] at hl
+      rw [List.eq_nil_of_length_eq_zero hl] at hid
+      cases hid
+
+/-- the transceivers a POWEROFF of `i` acts on: `i` itself, plus its children iff `i` is a
+managing parent (`child_mgt` and `child_idx == 0`) -/
+theorem powerList_spec (trx : Trx) (i j : Nat) :
+    j ∈ powerList trx i ↔ j = i ∨ (trx.childMgt = true ∧ trx.childIdx = 0 ∧ j ∈ trx.children) := by
+  unfold powerList
+  split
+  · next h => simp at h; simp [h]
+  · next h => simp at h; simp; intro h1 h2; exact absurd h2 (h h1)
+
+/-- `setformat_effect_on_accept`: after an accepted `SETFORMAT v` (v one of KNOWN_VERSIONS) to
+transceiver `i`, exactly the datagrams that parse with header version `v` are accepted by `i`
+(while it runs); no queue, power state or bookkeeping changes — queued messages stay queued. -/
+theorem setformat_effect_on_accept (w0 : World) (ops : List Op) (i sp : Nat) (d : List Nat) (trx : Trx)
+    (a : Str) (v : Int) (ht : (run w0 ops).1.trxs[i]? = some trx)
+    (hreq : CtrlReq d [lit "SETFORMAT", a]) (ha : toInt a = .ok v) (hk : v ∈ Gen.Trxd.knownVersions) :
+    (∀ k, queueOf (run w0 (ops ++ [Op.ctrl i sp d])).1 k = queueOf (run w0 ops).1 k ∧
+          runningOf (run w0 (ops ++ [Op.ctrl i sp d])).1 k = runningOf (run w0 ops).1 k) ∧
+    (∀ k, ghost w0 (ops ++ [Op.ctrl i sp d]) k = ghost w0 ops k) ∧
+    (∀ d' msg, Accepts (run w0 (ops ++ [Op.ctrl i sp d])).1 i d' msg ↔
+      (Trxd.TxMsg.parseMsg (d'.take Gen.World.dataRecvSize) = .ok msg ∧ msg.ver = v ∧
+       runningOf (run w0 ops).1 i = true)) := by
+  have hw := setformat_effect (sp := sp) ht hreq ha hk
+  have hqr : ∀ k, queueOf (run w0 (ops ++ [Op.ctrl i sp d])).1 k = queueOf (run w0 ops).1 k ∧
+      runningOf (run w0 (ops ++ [Op.ctrl i sp d])).1 k = runningOf (run w0 ops).1 k := by
+    intro k
+    rw [run_snoc, hw, queueOf_setTrx, runningOf_setTrx]
+    by_cases e : i = k
+    · subst e; simp only [if_true, ht]; simp [queueOf, runningOf, ht]
+    · simp only [if_neg e, and_self]
+  refine ⟨hqr, fun k => ?_, fun d' msg => ?_⟩
+  · rw [ghost_snoc]
+    have := (hqr k).1
+    rw [run_snoc] at this
+    simp only [ghostStep, this]
+    rw [if_neg (fun hh => hh.2 hh.1)]
+  · rw [run_snoc, hw]
+    unfold Accepts
+    rw [setTrx_getElem?, if_pos rfl, ht]
+    simp only [Option.map_some, Option.some.injEq, runningOf, ht]
+    constructor
+    · rintro ⟨t, rfl, hp, hv, hr⟩; exact ⟨hp, hv, hr⟩
+    · rintro ⟨hp, hv, hr⟩; exact ⟨_, rfl, hp, hv, hr⟩
+
+/-- `eventually_resolved`: while the clock runs with consecutive ticks and `j` stays powered on
+(`Steady`), a queued burst for frame `m < 2715648` seen at clock value `c < 2715648`
+  * is emitted at the tick with frame number `m`, i.e. within `((m − c) mod 2715648) + 1` ticks, if it
+    is due or ahead: `m = c` or `(c − m) mod 2715648 ≥ 1357824`;
+  * otherwise (its frame has passed) is reported stale at the very next tick.
+`p` may be any queued message, in particular the one just appended by an accepted datagram
+(`accept_iff`). -/
+theorem eventually_resolved (w0 : World) (ops ops2 : List Op) (j : Nat) (h0 : queueOf w0 j = [])
+    (p : Nat × Trxd.TxMsg) (hp : p ∈ (ghost w0 ops j).ids.zip (queueOf (run w0 ops).1 j))
+    (m c : Nat) (hm : p.2.fn = some (m : Int)) (hmH : m < 2715648)
+    (hc : (run w0 ops).1.clkSrc = some c) (hcH : c < 2715648)
+    (hst : Steady j (run w0 ops).1 ops2) :
+    ((m = c ∨ ((c : Int) - m) % 2715648 ≥ 1357824) →
+      ticks ops2 ≥ (((m : Int) - c) % 2715648).toNat + 1 →
+      Event.emitted p.1 m ∈ (ghost w0 (ops ++ ops2) j).log) ∧
+    (¬ (m = c ∨ ((c : Int) - m) % 2715648 ≥ 1357824) →
+      ticks ops2 ≥ 1 →
+      Event.stale p.1 c ∈ (ghost w0 (ops ++ ops2) j).log) := by
+  refine ⟨fun hfut ht => resolve_future w0 j h0 p m hm hmH ops2 ops c hst hp hc hcH hfut ht,
+    fun hn ht => resolve_passed w0 j h0 p m hm ops2 ops c hst hp hc ?_ ht⟩
+  omega
+
+/-- `out_of_range_fn_stale`: `TxMsg.parse_msg` accepts any 32-bit frame number.  A queued burst
+with `fn = m ≥ 2715648` can never be due (the clock stays below the hyperframe); while `j` stays
+powered on it is reported stale — never emitted — at the latest at the tick whose frame number is
+`m mod 2715648`, i.e. within `((m − c) mod 2715648) + 1` ticks. -/
+theorem out_of_range_fn_stale (w0 : World) (ops ops2 : List Op) (j : Nat) (h0 : queueOf w0 j = [])
+    (p : Nat × Trxd.TxMsg) (hp : p ∈ (ghost w0 ops j).ids.zip (queueOf (run w0 ops).1 j))
+    (m : Int) (c : Nat) (hm : p.2.fn = some m) (hmH : m ≥ 2715648)
+    (hc : (run w0 ops).1.clkSrc = some c) (hcH : c < 2715648)
+    (hst : Steady j (run w0 ops).1 ops2) (ht : ticks ops2 ≥ ((m - c) % 2715648).toNat + 1) :
+    (∃ fn : Nat, fn < 2715648 ∧ Event.stale p.1 fn ∈ (ghost w0 (ops ++ ops2) j).log) ∧
+    (∀ fn', Event.emitted p.1 fn' ∉ (ghost w0 (ops ++ ops2) j).log) := by
+  obtain ⟨fn, hfn, hst'⟩ := resolve_out_of_range w0 j h0 p m hm hmH ops2 ops c hst hp hc hcH ht
+  refine ⟨⟨fn, hfn, hst'⟩, fun fn' hem => ?_⟩
+  have hu := (exactly_once w0 (ops ++ ops2) j h0).outcome_unique
+  have := outcome_event_unique _ hu _ hst' _ hem p.1 rfl rfl
+  cases this
+
 end OsmoVerif.Props.C03
